@@ -568,7 +568,6 @@ func internSchedOps(r *Runner, g *Gen, m int) {
 	}
 }
 
-
 // internLargeOps: a table grown beyond any small-table fast path by one goroutine,
 // then two goroutines racing on new and old values.
 func internLargeOps(r *Runner, count int) {
